@@ -785,7 +785,9 @@ func TimeBasedConnection(config *TimeBasedConnectionConfig) *graphql.FieldDefini
 			var edges []any
 			var promises []graphql.ResolvePromise
 			for _, q := range queries {
-				if queryEdges, err := config.EdgeGetter(ctx, q.MinTime, q.MaxTime, q.Limit); err != nil {
+				// isNil, like the promise path (join) and the Connection resolver: a getter that
+				// returns a typed nil error has not failed.
+				if queryEdges, err := config.EdgeGetter(ctx, q.MinTime, q.MaxTime, q.Limit); !isNil(err) {
 					return nil, nil, err
 				} else if promise, ok := queryEdges.(graphql.ResolvePromise); ok {
 					promises = append(promises, promise)
